@@ -77,6 +77,7 @@ type pathCtx struct {
 	endReason   string
 	world       *world // model stores etc (intercepts)
 	mapOrder    bool   // fork on map iteration order
+	mapMode     int    // 0 canonical ascending, 1 descending, 2 rotated (SetMapOrder)
 	scratch     map[string]interface{}
 	panicObj    interface{}
 	panicStack  string
